@@ -32,16 +32,21 @@ def run(run, only=None):
     if quick:
         fams = ["bool", "arith", "bv", "ite-bv", "store", "times-div"]
     run.bounds = {"depth": "2..%d (symbolic), chains with and without full sharing (tree size 2^d)" % maxd,
-                  "families": fams, "services": svcs, "work bound": "24*|DAG|+60 walker steps, 16*|DAG|+60 node constructions",
+                  "families": fams + (["str", "int-div", "bv-misc (8 services each)"] if quick else []),
+                  "printer output": "DAG text <= 120*|DAG|+400 characters", "services": svcs, "work bound": "24*|DAG|+60 walker steps, 16*|DAG|+60 node constructions",
                   "stack bound": "head-room at depth d <= head-room at depth 2 + 12 frames (recursion limit lowered around the call)",
                   "dags": "5 further nodes whose second child is a symbolic index into the earlier nodes (720 sharing patterns)"}
     run.outside = ["depth >= 20000 under the default recursion limit (bound-free)", "asymptotic linearity",
                    "TimesDistributor on shared sums (its output is inherently exponential)"]
     t = 200.0 if quick else 900.0
     jobs = []
-    for fam in fams:
+    extra_fams = ["str", "int-div", "bv-misc"]
+    for fam in fams + (extra_fams if quick else []):
         for svc in svcs:
             if not c20_xh.applicable(fam, svc):
+                continue
+            if quick and fam in extra_fams and svc not in ("construct", "simplify", "substitute", "logic", "types", "size-dag",
+                                                           "dagprint-parse", "atoms"):
                 continue
             if svc == "times-distributor" and fam != "arith":
                 continue
@@ -52,6 +57,15 @@ def run(run, only=None):
             if svc == "times-distributor":
                 continue
             jobs.append(("props.c20_xh", "h_dag", t, {"family": fam, "service": svc, "name": "dag/%s/%s" % (fam, svc)}))
+    # every operator nested in itself / in another operator of its sort with full sharing: DAG printer output and parser work
+    jobs.append(("props.c20_xh", "h_nest", t * 2, {"family": "nest", "service": "print-self", "mode": "plain", "self_only": True, "maxd": 12, "mind": 9 if quick else 2,
+                                                   "name": "nest/self"}))
+    jobs.append(("props.c20_xh", "h_nest", t * 4, {"family": "nest", "service": "print-pairs", "mode": "plain", "maxd": 12 if not quick else 10,
+                                                   "mind": 10, "name": "nest/pairs"}))
+    jobs.append(("props.c20_xh", "h_nest", t * 2, {"family": "nest", "service": "print-cross-binder-roundtrip", "mode": "cross-roundtrip",
+                                                   "maxd": 5, "mind": 4, "name": "nest/cross-binder-roundtrip"}))
+    jobs.append(("props.c20_xh", "h_nest", t * 2, {"family": "nest", "service": "print-cross-binder-size", "mode": "cross-size", "maxd": 12, "mind": 11,
+                                                   "name": "nest/cross-binder-size"}))
     if only:
         jobs = [j for j in jobs if any(o in j[3]["name"] for o in only)]
 
